@@ -12,6 +12,7 @@ density  point_density(): 5 kernels x data sets x grid sizes x scalar weights x 
 """
 
 import itertools
+import os
 import math
 
 import numpy as np
@@ -27,7 +28,8 @@ RULE = (
     "ref_axes(6), once as one (N,3,3) array and once grain by grain, plus the 9 pinned example files; "
     "lambert: all letters of 5 unit-vector blocks and 3 disk blocks x 2 hemispheres x 2 liftings; density: "
     "full product kernel(5) x data set(14) x gridsteps{5,21,101} x weight(5) x axial{T,F} (+ a 40000-point set x "
-    "kernel(5) x gridsteps{5,21} x weight(2) x axial{T,F}), each case = base "
+    "kernel(5) x gridsteps{5,21} x weight(2) x axial{T,F}; + ordinary calls in a fresh interpreter vs the same "
+    "calls after calls passing the axial flag as numpy bools / ints), each case = base "
     "call + all distinct data permutations (reverse, rotate, stride) + sign flips of single data (every "
     "datum, all data, even-indexed data; at 101 grid steps in the quick tier the middle datum and the "
     "even-indexed data, permutations reverse and stride). A point is non-trivial for "
@@ -299,6 +301,8 @@ def gen_cases(tier, seed):
         keys.append(dict(part="poles", set="example", hkl=hn, ref=ra))
     for b in LAMBERT_UNIT_BLOCKS + LAMBERT_DISK_BLOCKS:
         keys.append(dict(part="lambert", block=b))
+    for form in ("npbool", "int"):
+        keys.append(dict(part="history", form=form))
     # simplest data first; grid size innermost so that the expensive 101-step cases are spread
     # evenly over the worker chunks
     for ds in data_sets():
@@ -319,7 +323,72 @@ def gen_cases(tier, seed):
 
 def run_case(key):
     with np.errstate(all="ignore"):
-        return {"conv": run_conv, "poles": run_poles, "lambert": run_lambert, "density": run_density}[key["part"]](key)
+        return {"conv": run_conv, "poles": run_poles, "lambert": run_lambert, "density": run_density, "history": run_history}[key["part"]](key)
+
+
+HIST_NS = (37, 150)
+
+
+def history_child(mode):
+    """Runs in a FRESH interpreter.  mode 'plain': the ordinary calls only; otherwise the same
+    calls preceded (per kernel and data size) by calls that pass the axial flag in the given
+    other form.  Prints a digest of every ordinary result."""
+    import hashlib
+
+    st = stats()
+    forms = {"plain": None, "npbool": (np.True_, np.False_), "int": (1, 0)}[mode]
+    out = {}
+    with np.errstate(all="ignore"):
+        for kernel in KERNELS:
+            for n in HIST_NS:
+                d = unit(np.random.default_rng(77 + n).normal(size=(n, 3)))
+                if forms is not None:
+                    for other in forms:
+                        try:
+                            st.point_density(d[:, 0].copy(), d[:, 1].copy(), d[:, 2].copy(), gridsteps=9, kernel=kernel, axial=other)
+                        except Exception:
+                            pass
+                for axial in (True, False):
+                    try:
+                        Z = np.asarray(st.point_density(d[:, 0].copy(), d[:, 1].copy(), d[:, 2].copy(), gridsteps=9, kernel=kernel, axial=axial)[2], float)
+                        out[f"{kernel}|{n}|{axial}"] = [hashlib.sha1(Z.tobytes()).hexdigest()[:16], int((~np.isfinite(Z)).sum())]
+                    except Exception as e:
+                        out[f"{kernel}|{n}|{axial}"] = ["exc:" + type(e).__name__, -1]
+    return out
+
+
+def run_history(key):
+    """The estimate is a function of its arguments, not of what the process computed before:
+    ordinary calls in a fresh interpreter vs the same calls in a fresh interpreter that first
+    made calls passing the axial flag as numpy bools / ints (whose own results are not judged).
+    Seed C20f: memoised helpers keyed so that True, 1 and numpy.True_ collide."""
+    import json
+    import subprocess
+    import sys
+
+    res = empty_result()
+    vals = {}
+    for mode in ("plain", key["form"]):
+        out = subprocess.run([sys.executable, "-m", "props.c20", mode], capture_output=True, text=True, cwd=os.path.dirname(os.path.dirname(os.path.abspath(__file__))))
+        got = None
+        for line in out.stdout.splitlines():
+            if line.startswith("RESULT "):
+                got = json.loads(line[7:])
+        if got is None:
+            raise RuntimeError("history child failed: " + out.stderr[-1500:])
+        vals[mode] = got
+    res["n"] = res["trans"] = 2 * len(vals["plain"])
+    res["states"] = 2
+    for k, v in vals["plain"].items():
+        _count(res, "density_independent_of_earlier_calls")
+        if vals[key["form"]].get(k) != v:
+            kernel, n, axial = k.split("|")
+            res["viol"].append({"clause": "density_independent_of_earlier_calls", "key": dict(key, kernel=kernel, n=int(n), axial=axial), "detail": {"fresh": v, "after_other_flag_forms": vals[key["form"]].get(k)}})
+    res["nontrivial"].append(digest(key))
+    res["outcomes"].append(digest(sorted(vals["plain"].items())))
+    res["obs"] = digest(sorted(vals["plain"].items()), sorted(vals[key["form"]].items()))
+    res["sample"] = {"case": key, "calls_compared": len(vals["plain"])}
+    return res
 
 
 def _count(res, clause, k=1):
@@ -904,6 +973,22 @@ def run_density(key):
                 note("density_upper_and_lower_sheet_differ_at_same_XY_cases")
     res["outcomes"].append(digest(np.round(np.nan_to_num(Z, nan=-1.0, posinf=-2.0, neginf=-3.0), 6)))
 
+    # the same call again after calls that pass the flag in another truthy / falsy form
+    # (see also run_history, which does this from fresh interpreters)
+    if G <= 21:
+        for other in ((np.True_, 1) if axial else (np.False_, 0)):
+            try:
+                st.point_density(data[:, 0].copy(), data[:, 1].copy(), data[:, 2].copy(), gridsteps=G, weights=w, kernel=kernel, axial=other)
+            except Exception:
+                pass
+            res["n"] += 2
+            _count(res, "density_independent_of_earlier_calls")
+            again = call(data)
+            same_again = (not isinstance(again, Exception)) and all(np.array_equal(np.asarray(a), np.asarray(b), equal_nan=True) for a, b in zip(again, out))
+            if not same_again:
+                V("density_independent_of_earlier_calls", "differs_after_call_with_other_flag_form", {"flag_form": repr(other), "n_nonfinite_now": None if isinstance(again, Exception) else int((~np.isfinite(np.asarray(again[2], float))).sum())}, after=type(other).__name__)
+                break
+
     # order and sign independence
     tol = 1e-9 * max(1.0, float(np.abs(Z[np.isfinite(Z)]).max()) if np.isfinite(Z).any() else 1.0)
     first_bad = {}
@@ -946,3 +1031,16 @@ def run_density(key):
     res["obs"] = digest(*obs_parts)
     res["sample"] = {"case": key, "n_data": n, "grid_mean": float(np.nanmean(Z)) if np.isfinite(Z).any() else None, "clipped_points": int((Z == 0).sum())}
     return res
+
+
+if __name__ == "__main__":
+    import json
+    import sys
+
+    from mc.runner import quiet_pydrex
+
+    alph.configure(int(os.environ.get("VERIF_SEED", "0")), os.environ.get("VERIF_TIER", "quick"))
+    import pydrex  # noqa
+
+    quiet_pydrex()
+    print("RESULT " + json.dumps(history_child(sys.argv[1])))
